@@ -27,7 +27,7 @@ def _exec_one(job):
         raise world.Watchdog('wall-clock limit of one scenario exceeded')
     try:
         signal.signal(signal.SIGALRM, on_alarm)
-        signal.alarm(int(sc.get('wall_limit', 60)))
+        signal.alarm(int(sc.get('wall_limit', 120)))
     except ValueError:
         pass                      # not in the main thread
     try:
